@@ -858,6 +858,14 @@ func (fsm *fsm) stop() {
 	fsm.h.ctxCancel()
 }
 
+// stopDialling stops the goroutine that makes outgoing connections, if one
+// has been started.
+func (fsm *fsm) stopDialling() {
+	if fsm.outgoingConnMgr != nil {
+		fsm.outgoingConnMgr.stop()
+	}
+}
+
 type fsmCallback func(*fsmMsg)
 
 type fsmHandler struct {
@@ -2229,11 +2237,11 @@ func (h *fsmHandler) loop(ctx context.Context, wg *sync.WaitGroup) {
 				slog.String("Reason", reason.String()))
 		}
 
-		switch reason.Type {
-		case fsmAdminDown, fsmGracefulRestart:
-			if fsm.outgoingConnMgr != nil {
-				fsm.outgoingConnMgr.stop()
-			}
+		// Whatever took the FSM back to Idle: nothing dials the peer on
+		// behalf of an Idle (possibly disabled) neighbour. Active starts
+		// the connection manager again.
+		if nextState == bgp.BGP_FSM_IDLE || reason.Type == fsmAdminDown || reason.Type == fsmGracefulRestart {
+			fsm.stopDialling()
 		}
 
 		if ctx.Err() != nil {
